@@ -332,6 +332,19 @@ fn run_s_raw(rep: &mut Report, d: &str, o0: &Opts, doc: &str) {
             if !on.cm.starts_with(fm.as_str()) {
                 rep.fail("cm-verbatim", "doc", input.clone(), format!("{}: CommonMark output {:?} does not start with the front matter", ctx, show(on.cm.as_bytes())));
             }
+            // the experimental minimiser post-processes the whole CommonMark text: only the verbatim clause
+            // is claimed with it on (the comparison with the rest alone is not, see above)
+            if o0.get("experimental_minimize_commonmark") {
+                let mut om = o.clone();
+                om.set("experimental_minimize_commonmark", true);
+                if let Ok(pm) = render_all(doc, &om) {
+                    rep.s_evals += 1;
+                    rep.count("s-minimized-verbatim-clause");
+                    if !pm.cm.starts_with(fm.as_str()) {
+                        rep.fail("cm-verbatim", "minimized", input.clone(), format!("{} + experimental_minimize_commonmark: CommonMark output {:?} does not start with the front matter", ctx, show(pm.cm.as_bytes())));
+                    }
+                }
+            }
             // a BOM is a byte-order mark only at the very start of a text: a rest that starts with
             // U+FEFF is ordinary text inside the document and has no stand-alone counterpart
             if rest.starts_with(BOM) {
@@ -441,7 +454,7 @@ fn gen_fm_doc(r: &mut Rng, corpus: &Corpus) -> (String, String) {
             10 => "<div>".into(),
             11 => "é: ü".into(),
             12 => format!("{}{}", d, d),
-            _ => r.ps(&["a: b", "title: \"q\"", "tags: [x, y]", "k: |", "  v"]).to_string(),
+            _ => r.ps(&["a: b", "title: \"q\"", "tags: [x, y]", "k: |", "  v", "path: C:\\temp\\new", "re: \\d+\\.\\d+ \\* \\_x\\_", "e: &amp; &#35; *not* _md_ `c` <b>", "u: http://a.b/c?d=e www.x.y a@b.c", "esc: \\[x\\] \\# \\> \\- \\!"]).to_string(),
         };
         s.push_str(&l);
         s.push_str(eol(r));
@@ -582,6 +595,22 @@ pub fn run(cfg: &Cfg, rep: &mut Report) {
         }
     }
     bt.run(&m, rep);
+    // front matter far larger than the document after it: nothing of it may count for the rest (the
+    // reference-expansion budget is max(size, 100000): a rest whose expansions cross 100000 bytes)
+    for (fm_bytes, url_len, uses) in [(150_000usize, 1000usize, 150usize), (400_000, 2000, 120), (90_000, 500, 260), (150_000, 1000, 95)] {
+        let mut doc = String::from("---\n");
+        while doc.len() < fm_bytes {
+            doc.push_str("key: some value that takes up room in the front matter\n");
+        }
+        doc.push_str("---\n");
+        doc.push_str(&format!("[r]: /{}\n\n", "u".repeat(url_len)));
+        for i in 0..uses {
+            doc.push_str(if i % 20 == 19 { "[r]\n" } else { "[r] " });
+        }
+        doc.push('\n');
+        rep.count("s-large-front-matter-reference-budget");
+        run_s(rep, "---", &Opts::default(), &doc);
+    }
     // S on generic documents with the common delimiter (grammar_doc emits "---" blocks)
     let n = if cfg.tier_thorough { 60_000 } else if cfg.full { 15_000 } else { 3_000 };
     for _ in 0..n {
